@@ -4,22 +4,27 @@ prop("C12",
      harness="c12_coords",
      runs={
          "quick": [dict(flavour="asan", cases=1200), dict(flavour="rel", cases=8000)],
-         "thorough": [dict(flavour="asan", cases=3000, timeout=3600), dict(flavour="rel", cases=40000, timeout=3600)],
+         # thorough: about 20 min at 6 jobs (measured on a heavily loaded machine).  The asan flavour is 20-50x slower per bin, so its sub-sample strides every
+         # configuration above 30000 bins (rel: 250000)
+         "thorough": [dict(flavour="asan", cases=600, timeout=3600, env={"C12_BIN_BUDGET": "30000"}),
+                      dict(flavour="rel", cases=24000, timeout=5400)],
      },
-     min_nontrivial={"quick": 3000, "thorough": 20000},
+     min_nontrivial={"quick": 3000, "thorough": 12000},
      min_obs={"quick": {"bins_roundtripped": 2000000, "roundtrip_exact": 500000, "roundtrip_neighbour": 200000, "roundtrip_view_wrap": 2000,
                         "lor_misses": 1000, "bins_geometry_checked": 1000000, "bins_geometry_cyl-noarc": 300000,
                         "bins_geometry_cyl-arc": 100000, "bins_geometry_blocks": 30000, "bins_geometry_generic": 10000,
                         "tantheta_vs_contributing_pairs": 300000, "phi_within_half_view_step": 100000, "arc_correction_rows": 10000,
                         "arc_correction_uniform_bins": 10000, "tof_bins_checked": 1000, "symmetry_relations_checked": 50000,
                         "cfg_tilt": 500, "cfg_view_mashing": 300, "cfg_axial_compression": 500, "cfg_tof_mashed": 100},
-              "thorough": {"bins_roundtripped": 1000000000, "bins_geometry_checked": 500000000, "cfg_predefined_scanner": 5000,
-                           "arc_correction_rows": 100000, "tof_bins_checked": 10000, "cfg_strided": 2000}},
+              "thorough": {"bins_roundtripped": 1000000000, "bins_geometry_checked": 500000000, "cfg_predefined_scanner": 4000,
+                           "arc_correction_rows": 100000, "tof_bins_checked": 5000, "cfg_strided": 2000,
+                           "bins_geometry_blocks": 30000000, "bins_geometry_generic": 10000000, "roundtrip_view_wrap": 500000,
+                           "lor_misses": 10000000}},
      rule=("case = one generated (scanner, sampling) configuration: even detector count 8..40 (thorough ..96/320), 1..5/8 rings, radius, DOI, "
            "ring spacing, intrinsic tilt, TOF; cylindrical (not arc-corrected / arc-corrected), blocks-on-cylindrical, or generic from a "
            "crystal map written by the harness (perturbed radii); span (odd, even, mixed GE), max ring difference, view mashing, TOF "
-           "mashing, truncated tangential/segment range; thorough: every 4th case a predefined Scanner type.  Per configuration ALL bins "
-           "(strided above 60000 / 250000 bins) go through (1) bin->get_LOR->get_bin (sinogram-coordinate and two-point LOR) and (2) the "
+           "mashing, truncated tangential/segment range; thorough: a quarter of the cases (drawn per case) use a predefined Scanner type.  Per configuration ALL bins "
+           "(strided above 60000 / 250000 bins; 30000 in the thorough asan sub-sample; and above 10^7 bins x contributing detector pairs per bin) go through (1) bin->get_LOR->get_bin (sinogram-coordinate and two-point LOR) and (2) the "
            "comparison of get_s/get_phi/get_m/get_tantheta with the float64 line through the physical detector positions; plus (3) "
            "antisymmetry/monotonicity/sampling/TOF relations and (4) ArcCorrection on all views of one sinogram (every 3rd row constant, "
            "others random).  non-trivial = configuration with >= 2 views and >= 3 tangential positions whose bins were round-tripped and "
@@ -39,7 +44,14 @@ prop("C12",
                  "(sampling does not correspond to physical rings); odd detector counts skipped.  A miss is also accepted when the "
                  "permitted one-step tangential neighbour lies outside a truncated tangential range; obliqueness of axially compressed "
                  "bins whose contributing ring differences are not symmetric about the segment average (incomplete edge bins, even "
-                 "'GE' spans) is compared with the documented segment-average model instead of the mean over contributing pairs"),
+                 "'GE' spans) is compared with the documented segment-average model instead of the mean over contributing pairs.  "
+                 "Planted breaks caught in the quick tier (scratch worktree): m_offset sign and m_offset with the sampling of segment 0 "
+                 "(*:axial-positions-not-centred-on-the-scanner, cyl-noarc:m-disagrees-with-detector-positions, roundtrip-*-reports-miss-"
+                 "away-from-compressed-axial-edge); intrinsic tilt ignored in ProjDataInfoCylindricalNoArcCorr::get_bin "
+                 "(cyl-noarc:roundtrip-sinogram-lor-more-than-one-step-or-other-segment-or-tof); ring origin num_rings/2 in the same "
+                 "function (cyl-noarc:roundtrip-*-reports-miss-away-from-compressed-axial-edge); TOF bin boundaries shifted by half a bin "
+                 "(*:tof-bin-of-time-near-bin-centre-is-another-bin, roundtrip-*-other-segment-or-tof); z_shift applied to one end only in "
+                 "ProjDataInfoGeneric::get_LOR (blocks/generic:m-disagrees-with-detector-positions)"),
      assumptions=["for blocks/generic geometries the scanner's detector map (checked for centring; for generic against the crystal-map file "
                   "written by the harness) is the physical ground truth",
                   "equivalent descriptions of one line, (s, phi, theta) ~ (-s, phi+pi, -theta), are identified for the generic classes, which "
